@@ -59,6 +59,8 @@ func c02Run(f []string) string {
 		return c02RxRun(f)
 	case "dissectpipe":
 		return c02PoolRun(f)
+	case "tflush":
+		return c02TFlushRun(f)
 	case "filt", "filtl", "vis", "idx":
 		return c02FilterRun(f)
 	case "ctx":
@@ -260,6 +262,8 @@ func c02Gen(r *Rand, tier string) []string {
 	out = append(out, c02PoolGen(NewRand(r.U64()), tier)...)
 	// the regex engine itself against the model's leftmost-first matcher (fragment of the syntax)
 	out = append(out, c02RxGen(NewRand(r.U64()), tier)...)
+	// the time-flush path with pauses and a late consumer
+	out = append(out, c02TFlushGen(NewRand(r.U64()), tier)...)
 	// the matcher the flags select (helpers.BuildMatcherFromArguments)
 	out = append(out, c02PlanGen(NewRand(r.U64()), tier)...)
 	// the whole pipeline with late consumption (shared with C01)
